@@ -200,6 +200,18 @@ impl DatamodelFactory for RFsmExpressionDatamodelFactory {
     }
 }
 
+/// Marks a value and all values contained in it as read-only.
+fn set_readonly_deep(value: &mut DataArc) {
+    value.set_readonly(true);
+    if let Ok(mut guard) = value.arc.try_lock() {
+        match &mut *guard {
+            Data::Map(m) => m.values_mut().for_each(set_readonly_deep),
+            Data::Array(a) => a.iter_mut().for_each(set_readonly_deep),
+            _ => {}
+        }
+    }
+}
+
 fn option_to_data_value(val: &Option<String>) -> Data {
     match val {
         Some(s) => Data::String(s.clone()),
@@ -536,9 +548,9 @@ impl Datamodel for RFsmExpressionDatamodel {
 
         let mut ds = self.global_data.lock().unwrap();
         let event_name = EVENT_VARIABLE_NAME.to_string();
-        // READONLY
+        // READONLY: the variable, its fields and everything inside 'data'.
         let mut event_arc = create_data_arc(Data::Map(event_props));
-        event_arc.set_readonly(true);
+        set_readonly_deep(&mut event_arc);
         ds.data.map.remove(&event_name);
         ds.data.set_undefined_arc(event_name, event_arc);
     }
